@@ -338,6 +338,8 @@ def handle (op : String) (payload : Str) (args : List String) : String :=
     | "StreamData" => buildTagOp streamDataToken {} StreamDataBuilder.build StreamData.parse Obs.streamdata StreamData.show (fun _ => 1) payload
     | "DecryptionKey" => buildTagOp decryptionKeyToken {} DecryptionKeyBuilder.build DecryptionKey.parse Obs.deckey DecryptionKey.show DecryptionKey.requiredVersion payload
     | _ => "bad-op"
+  else if op == "build_media" && ((splitAll '\n' payload).filter isParseCall).length ≥ 2 then
+    "unsupported"     -- a builder that parses more than once: the model has no builder state after a parse (implementation-side oracle only)
   else if op == "build_media" then
     match buildMediaScript payload with
     | some r => mediaOp r true
@@ -345,6 +347,12 @@ def handle (op : String) (payload : Str) (args : List String) : String :=
   else if op == "build_master" then
     match buildMasterScript payload with
     | some r => masterOp r true
+    | none => "bad-op"
+  else if op == "owned_build_media" then
+    match buildMediaScript payload with
+    | some (.ok p) => "ok " ++ Obs.media p ++ " O:111 C:111"
+    | some .err => "err"
+    | some .panic => "panic"
     | none => "bad-op"
   else if op == "cmp_build_media" then
     -- two builder scripts: the model's `=` is structural (what `#[derive(PartialEq)]` is), on playlists and on segment lists
@@ -456,6 +464,11 @@ def handle (op : String) (payload : Str) (args : List String) : String :=
     | _ => "bad-op"
   | "media" => mediaOp (parseMedia payload) false
   | "media_fromstr" => mediaOp (parseMediaFromStr payload) false
+  | "cmp_entry" =>
+    match parseMedia payload, parseMediaFromStr payload, builderParse none payload with
+    | .ok a, .ok b, .ok c => "ok " ++ Obs.media a ++ " E:" ++ Obs.bool (decide (a = b) && decide (a = c)) ++ " X:" ++ Obs.bool (decide (a = b) && decide (a = c))
+    | .panic, _, _ => "panic"
+    | _, _, _ => "err"
   | "media_builder" =>
     match args with
     | ["-"] => mediaOp (builderParse none payload) false
